@@ -62,10 +62,12 @@ func edgeTaken(path []*ssa.BasicBlock, i int, after *ssa.BasicBlock) (cond ssa.V
 		return nil, false, false
 	}
 	if b.Succs[0] == next && b.Succs[1] != next {
-		return iff.Cond, true, true
+		cnd, v := normalizeCond(iff.Cond, true)
+		return cnd, v, true
 	}
 	if b.Succs[1] == next && b.Succs[0] != next {
-		return iff.Cond, false, true
+		cnd, v := normalizeCond(iff.Cond, false)
+		return cnd, v, true
 	}
 	return nil, false, false
 }
